@@ -6,7 +6,7 @@ images of every container type (incl. those whose geometry depends on the name h
 with padded headers (sizes around multiples of the 512/1024-byte buffers) and every command is compared between X and
 X.gz; every truncation and single-bit corruption of a small .gz must be rejected or harmless; TraceGzip.tla judges."""
 import os, json, random, zlib, struct, shutil
-import common, mkdisc, mkflux, discs
+import common, mkdisc, mkflux, discs, readtrace
 
 
 def gz_bytes(data, level=6, fname=None, members=1):
@@ -70,6 +70,31 @@ def corpus(scratch, rnd):
     img = mkdisc.surface_dfs(720, 42, title=b"GZMFM", entries=files(720))
     p = mkflux.image_to_flux(bytes(img), 40, 18, "MFM", "mfm", os.path.join(scratch, "f.mfm"))
     items.append(("mfm", p, base_cmds[:8]))
+    # flux whose physical layout is not the plain one: 2:1 interleave and skew (decoded sectors arrive out of numerical order), and
+    # recoverable anomalies before the sectors proper (a sector ID with no data record, a data record with a bad CRC, a deleted-data
+    # record: each must be passed over, the good copy that follows is the sector)
+    il = [0, 5, 1, 6, 2, 7, 3, 8, 4, 9]
+    img = mkdisc.surface_dfs(400, 46, title=b"GZILV", entries=files(400))
+    p = mkflux.image_to_flux(bytes(img), 40, 10, "FM", "hfe", os.path.join(scratch, "ilv.hfe"), order=il, skew=3)
+    items.append(("hfe-interleave", p, base_cmds[:8]))
+    il18 = [(2 * i) % 18 if i < 9 else (2 * (i - 9) + 1) for i in range(18)]
+    img = mkdisc.surface_dfs(720, 47, title=b"GZILM", entries=files(720))
+    p = mkflux.image_to_flux(bytes(img), 40, 18, "MFM", "mfm", os.path.join(scratch, "ilv.mfm"), order=il18, skew=5)
+    items.append(("mfm-interleave", p, base_cmds[:8]))
+    p = mkflux.image_to_flux(bytes(img), 40, 18, "MFM", "hfe", os.path.join(scratch, "ilvm.hfe"), order=il18)
+    items.append(("hfe-mfm-interleave", p, base_cmds[:8]))
+    # (the order varies by track so that each anomaly is at some point the one directly followed by a good sector)
+    anomalies = lambda t, s: ([("deleted", 1)] if t % 7 == 2 else []) + [[("badcrc", (t + 5) % 10), ("orphan", (t + 3) % 10)],
+                                                                        [("orphan", (t + 3) % 10), ("badcrc", (t + 5) % 10)],
+                                                                        [("orphan", (t + 3) % 10)]][t % 3] + ([("deleted", 2)] if t % 7 == 4 else [])
+    img = mkdisc.surface_dfs(400, 48, title=b"GZANO", entries=files(400))
+    p = mkflux.image_to_flux(bytes(img), 40, 10, "FM", "hfe", os.path.join(scratch, "ano.hfe"), prologue=anomalies)
+    items.append(("hfe-anomalies", p, base_cmds[:8]))
+    img = mkdisc.surface_dfs(720, 49, title=b"GZANM", entries=files(720))
+    p = mkflux.image_to_flux(bytes(img), 40, 18, "MFM", "mfm", os.path.join(scratch, "ano.mfm"), prologue=anomalies)
+    items.append(("mfm-anomalies", p, base_cmds[:8]))
+    p = mkflux.image_to_flux(bytes(img), 40, 18, "MFM", "hfe", os.path.join(scratch, "anom.hfe"), prologue=anomalies)
+    items.append(("hfe-mfm-anomalies", p, base_cmds[:8]))
     # an HFE file that ends exactly where its last track ends (no 512-byte padding): the reader's last read is short
     raw = open(p, "rb").read() if False else None
     hp = os.path.join(scratch, "nopad.hfe")
@@ -160,16 +185,27 @@ def run(chk, tier, seed):
             plain = os.path.join(sub, os.path.basename(path))
             shutil.copy(path, plain)
             evs = []
-            for cmd in cmds:
-                a = common.run([dfs, "--file", plain] + cmd, cwd=sub, timeout=120)
-                b = common.run([dfs, "--file", gzpath] + cmd, cwd=sub, timeout=120)
+            rs = []
+            for ci, cmd in enumerate(cmds):
+                if vn in ("l6", "mod512=511") and ci in (0, 5, 8) and tag != "mmb-full" and (not quick or ci != 8):
+                    # ReadStack.tla: the same run seen from inside; both files belong to one group, so every drive sector the
+                    # bottom layer delivers must carry the same data whether it came from X or from X.gz
+                    a, ta = readtrace.record([dfs, "--file", plain] + cmd, sub, "p%d" % ci, ctx=dict(group="%s/%s" % (tag, vn)), cwd=sub, timeout=120)
+                    b, tb = readtrace.record([dfs, "--file", gzpath] + cmd, sub, "z%d" % ci, ctx=dict(group="%s/%s" % (tag, vn)), cwd=sub, timeout=120)
+                    rs.append(("%s: dfs %s on the uncompressed file (rc=%s)" % (tag, " ".join(cmd), a.rc), ta))
+                    rs.append(("%s: dfs %s on the %s .gz (rc=%s)" % (tag, " ".join(cmd), vn, b.rc), tb))
+                else:
+                    a = common.run([dfs, "--file", plain] + cmd, cwd=sub, timeout=120)
+                    b = common.run([dfs, "--file", gzpath] + cmd, cwd=sub, timeout=120)
                 evs.append(dict(e="same", tag=tag, variant=vn, cmd=cmd[:2], same=1 if (a.out == b.out and a.rc == b.rc) else 0,
                                 rc=a.rc if a.rc is not None else -9, rc_gz=b.rc if b.rc is not None else -9, clean=1 if b.ok_alphabet() else 0,
                                 err_gz=b.err.decode("latin1")[:200]))
             shutil.rmtree(os.path.join(scratch, "g%d" % i), ignore_errors=True)
-            return evs
-        for evs in common.pmap(do, list(enumerate(jobs))):
+            return evs, rs
+        rs_runs = []
+        for evs, rs in common.pmap(do, list(enumerate(jobs))):
             events += evs
+            rs_runs += rs
         # damaged streams of a small, compressible image
         img = bytearray(400 * 256)
         s0, s1 = mkdisc.catalog_fragment(b"DAMAGE", 3, 1, 400, [mkdisc.entry("Z", length=256, start=2)])
@@ -233,6 +269,10 @@ def run(chk, tier, seed):
             else:
                 chk.violation("damaged:%s:%s" % (e["kind"], e["outcome"]), "%s at byte %d of %d of a .gz: outcome %s %s" %
                               (e["kind"], e["pos"], e["total"], e["outcome"], e["detail"]), dict(event=e))
+        if rs_runs:
+            for desc, tev in rs_runs:
+                chk.case(("readstack", desc))
+            readtrace.validate(chk, rs_runs, scratch, "readstack")
         chk.extra["corpus_images"] = len(items)
         chk.extra["gz_variants_run"] = len(jobs)
         chk.extra["damaged_streams"] = len(dmg)
